@@ -143,6 +143,28 @@ theorem txVerify_iff (rc : Bytes → Bytes → Option Bytes) (H : Bytes → Byte
       · simp only [h2, this, Bool.not_true, Bool.false_eq_true, if_false, true_and]
         exact ⟨fun h => ⟨h1, h⟩, fun h => h.2⟩
 
+/-- corollary (the "only if" of the property): whatever the dataType-specific checks say, an
+    accepted transaction has a signature with V that recovers, on the transaction id, to a key
+    whose address is `from`.  `dataOk` can only reject. -/
+theorem txVerify_ok_implies_signature (rc : Bytes → Bytes → Option Bytes) (H : Bytes → Bytes)
+    (value : Option Int) (stepLimit : Int) (dataOk : Bool) (sig : Option Bytes)
+    (id from_ : Bytes)
+    (h : txVerify rc H value stepLimit dataOk sig id from_ = true) :
+    dataOk = true ∧
+    ∃ s pk, sig = some s ∧ hasV s = true ∧ 0 < id.length ∧ id.length ≤ 32 ∧
+      rc s id = some pk ∧ addrEqual (addressOf H pk) from_ = true := by
+  have h' := (txVerify_iff rc H value stepLimit dataOk sig id from_).mp h
+  exact ⟨h'.2.2.1, (verify_iff rc H sig id from_).mp h'.2.2.2⟩
+
+/-- a failing data check rejects regardless of the signature -/
+theorem txVerify_dataOk_false (rc : Bytes → Bytes → Option Bytes) (H : Bytes → Bytes)
+    (value : Option Int) (stepLimit : Int) (sig : Option Bytes) (id from_ : Bytes) :
+    txVerify rc H value stepLimit false sig id from_ = false := by
+  unfold txVerify
+  split
+  · rfl
+  · split <;> rfl
+
 /-! ### 3. sign, recover, verify: the algebra -/
 
 /-- In a module over `ZMod q` (q prime) with generator `G`: for every private key `d`, message
